@@ -265,6 +265,13 @@ func runProperty(repo, verif, cmd, id, tier string, verbose bool, filter string,
 		}
 		if cmd == "check" {
 			_, claimed := pb[full]
+			for _, k := range known {
+				// an open known finding is an obligation the property demands and the tree fails:
+				// it is tracked even though it is (by definition) not in the discharged baseline
+				if k.Property == id && k.Obligation == full && k.Status != "fixed" {
+					claimed = true
+				}
+			}
 			if !claimed {
 				rep.Status = "unclaimed:" + rep.Status
 				unclaimed = append(unclaimed, rep)
